@@ -31,6 +31,7 @@ type pairCase struct {
 	R1     []x.Val   `json:"r1"`
 	R2     []x.Val   `json:"r2"`
 	Simple bool      `json:"simple,omitempty"` // also through HashOfSimple (single column)
+	TScale int       `json:"tscale,omitempty"` // scale S of the DECIMAL(65,S) type handed to HashOfSimple for numbers
 }
 
 type engCase struct {
@@ -311,6 +312,9 @@ func genPair(r *lib.RNG) pairCase {
 		c.Schema = []bool{false, false}
 	}
 	c.Simple = n == 1 && c.R1[0].K != "null" && c.R2[0].K != "null"
+	// the compare type of the simple key: mostly wide enough for the values (InternalDecimalType has scale 30), sometimes
+	// narrower than the values so that DecimalType.Convert rounds
+	c.TScale = lib.Pick(r, []int{30, 30, 10, 10, 4, 2, 1, 0})
 	return c
 }
 
@@ -424,13 +428,19 @@ func runPair(c *lib.Ctx, r *lib.RNG, cs pairCase) {
 	if cs.Simple {
 		a, b := cs.R1[0], cs.R2[0]
 		var t sql.Type
+		var st string
+		wide := true // the type's scale holds every fraction digit of both values (no rounding in Convert)
 		switch {
 		case a.K == "str":
 			t = types.MustCreateString(sqltypes.VarChar, 20, collIDs[cs.Coll])
+			st = "TText"
 		case a.K == "dec" || b.K == "dec":
-			t = types.MustCreateDecimalType(30, 10)
+			t = types.MustCreateDecimalType(65, uint8(cs.TScale))
+			st = fmt.Sprintf("(TDec %d)", cs.TScale)
+			wide = (a.K != "dec" || a.S <= cs.TScale) && (b.K != "dec" || b.S <= cs.TScale)
 		default:
 			t = types.Int64
+			st = "TInt"
 		}
 		if (a.K == "str") != (b.K == "str") {
 			return
@@ -448,10 +458,21 @@ func runPair(c *lib.Ctx, r *lib.RNG, cs pairCase) {
 			c.Count("simple:error")
 			return
 		}
+		skey := ""
+		if s1 == s2 {
+			skey = fmt.Sprintf("simple|%s|%v|%v", st, a, b)
+		}
+		sid := c.Case("(SimpleCase "+lib.CoqBool(ci(cs.Coll))+" "+st+" "+hv(a)+" "+hv(b)+" "+lib.CoqBool(s1 == s2)+")", cs, skey)
+		c.Count("simple:type=" + strings.Trim(strings.Fields(st)[0], "("))
+		if !wide {
+			// a type narrower than the values is a caller's choice (values are rounded first): model tie only
+			c.Count("simple:rounding")
+			return
+		}
 		c.PredChecked()
 		c.Count("simple:checked")
 		if (s1 == s2) != refEq(cs.Coll, a, b) {
-			c.PredFail(id, "hashofsimple/"+pairKind(a, b),
+			c.PredFail(sid, "hashofsimple/"+pairKind(a, b),
 				fmt.Sprintf("hash.HashOfSimple(%s) on %s and %s (coll %s): '=' is %v but hashes equal is %v", t, a.SQL(), b.SQL(), cs.Coll, refEq(cs.Coll, a, b), s1 == s2), cs)
 		}
 	}
@@ -655,6 +676,7 @@ func runEng(c *lib.Ctx, v *engEnv, cs engCase) {
 		{"except", "SELECT COUNT(*) FROM (" + xs + " EXCEPT " + ys + ") q", len(classes(coll, S1)) - both(S1, S2), all, "", ""},
 		{"in-subquery", "SELECT COUNT(*) FROM " + t + " WHERE x IN (" + ys + ")", nIn, all, "", ""},
 		{"hash-join", "SELECT COUNT(*) FROM " + t + " a JOIN " + t + " b ON a.x = b.y", nJoin, all, "", ""},
+		{"hash-join-hinted", "SELECT /*+ HASH_JOIN(a,b) */ COUNT(*) FROM " + t + " a JOIN " + t + " b ON a.x = b.y", nJoin, all, "", ""},
 	}
 	if len(S2) > 0 {
 		lits := make([]string, len(S2))
@@ -709,7 +731,7 @@ func runEng(c *lib.Ctx, v *engEnv, cs engCase) {
 			if got < k.want {
 				dir = "merged"
 			}
-			if k.op == "except" || k.op == "intersect" || k.op == "in-subquery" || k.op == "in-list" || k.op == "hash-join" {
+			if k.op == "except" || k.op == "intersect" || k.op == "in-subquery" || k.op == "in-list" || k.op == "hash-join" || k.op == "hash-join-hinted" {
 				dir = "mismatch"
 			}
 			kinds := splitKinds(coll, k.vals)
@@ -724,6 +746,117 @@ func runEng(c *lib.Ctx, v *engEnv, cs engCase) {
 			c.PredFail(id, k.op+"/"+dir+"/"+kinds,
 				fmt.Sprintf("%s over x %s = %s, y %s = %s: engine count %d, number by '=' (reference) %d; query: %s",
 					k.op, defs[0], valsText(cs.X), defs[1], valsText(cs.Y), got, k.want, k.sql), cs)
+		}
+	}
+	// ---- operator models: the rows of the set operations, the hash join and the IN list against the Coq functions ----
+	rowsOf := func(q string) ([][]x.Val, bool) {
+		res := s.Query(q)
+		if res.Err != nil || res.Panic != "" {
+			return nil, false
+		}
+		var out [][]x.Val
+		for _, r := range res.Rows {
+			var row []x.Val
+			for _, g := range r {
+				u, err := x.ValFromGo(g)
+				if err != nil {
+					return nil, false
+				}
+				row = append(row, u)
+			}
+			out = append(out, row)
+		}
+		return out, true
+	}
+	coqRows := func(rows [][]x.Val) string {
+		parts := make([]string, len(rows))
+		for i, r := range rows {
+			parts[i] = hvs(r)
+		}
+		return lib.CoqList(parts)
+	}
+	setOps := func(tag, lq, rq string) {
+		// the operator's inputs as the set operation sees them (after its type unification): UNION ALL, split at |left|
+		both, ok1 := rowsOf(lq + " UNION ALL " + rq)
+		lrows, ok2 := rowsOf(lq)
+		if !ok1 || !ok2 || len(lrows) > len(both) {
+			c.Count("eng:setop-input-error")
+			return
+		}
+		L, R := both[:len(lrows)], both[len(lrows):]
+		for i, op := range []string{"INTERSECT", "INTERSECT ALL", "EXCEPT", "EXCEPT ALL", "UNION"} {
+			out, ok := rowsOf(lq + " " + op + " " + rq)
+			if !ok {
+				c.Count("eng:setop-error:" + op)
+				continue
+			}
+			key := ""
+			if len(out) > 0 && len(out) < len(L) {
+				key = fmt.Sprintf("setop|%s|%s|%v|%v", op, tag, L, R)
+			}
+			c.Case(fmt.Sprintf("(SetOpCase %d %s %s %s)", i, coqRows(L), coqRows(R), coqRows(out)), cs, key)
+			c.Count("eng:setop-model:" + op)
+		}
+	}
+	setOps(cs.Col, xs, ys)
+	planHas := func(q, node string) bool {
+		res := s.Query("EXPLAIN FORMAT=TREE " + q)
+		if res.Err != nil {
+			return false
+		}
+		for _, r := range res.Rows {
+			if strings.Contains(fmt.Sprint(r[0]), node) {
+				return true
+			}
+		}
+		return false
+	}
+	stype, sci := "TInt", lib.CoqBool(false)
+	switch cs.Col {
+	case "dec-same", "dec-big":
+		stype = "(TDec 2)"
+	case "dec-mixed", "int-dec":
+		stype = "(TDec 30)"
+	case "str-bin", "str-ai-ci", "str-general-ci":
+		stype = "TText"
+		sci = cib
+	}
+	jq := "SELECT /*+ HASH_JOIN(a,b) */ COUNT(*) FROM " + t + " a JOIN " + t + " b ON a.x = b.y"
+	if planHas(jq, "HashLookup") {
+		if got, err := count1(s.Query(jq)); err == nil {
+			key := ""
+			if got > 0 {
+				key = fmt.Sprintf("join|%s|%v|%v", cs.Col, cs.X, cs.Y)
+			}
+			c.Case("(JoinCase "+sci+" "+stype+" "+hvs(cs.X)+" "+hvs(cs.Y)+" "+fmt.Sprint(got)+")", cs, key)
+			c.Count("eng:join-model")
+		}
+	} else {
+		c.Count("eng:join-not-hash")
+	}
+	if len(S2) > 0 {
+		lits := make([]string, len(cs.Y))
+		for i, y := range cs.Y {
+			lits[i] = y.SQL()
+		}
+		iq := "SELECT COUNT(*) FROM " + t + " WHERE x IN (" + strings.Join(lits, ", ") + ")"
+		// HashInTuple compares under GetCompareType(column type, type of the first literal); for strings that is LONGTEXT
+		// with the default (binary) collation whatever the column's collation is
+		itype, ici := stype, lib.CoqBool(false)
+		if stype == "(TDec 2)" {
+			itype = "(TDec 30)"
+		}
+		if cs.Y[0].K != "null" && planHas(iq, "HASH IN") {
+			if got, err := count1(s.Query(iq)); err == nil {
+				key := ""
+				if got > 0 {
+					key = fmt.Sprintf("in|%s|%v|%v", cs.Col, cs.X, cs.Y)
+				}
+				c.Case("(InCase "+ici+" "+itype+" "+hvs(cs.X)+" "+hvs(cs.Y)+" "+fmt.Sprint(got)+")", cs, key)
+				c.Count("eng:in-model")
+			}
+		} else {
+			c.Count("eng:in-not-hash")
 		}
 	}
 	// COUNT(DISTINCT s, u) over string pairs
@@ -853,6 +986,7 @@ func runEng(c *lib.Ctx, v *engEnv, cs engCase) {
 					fmt.Sprintf("%s over rows %s (%s): engine count %d, number by '=' on both columns %d; query: %s", k.op, pairsText(cs.P), defs[0], got, k.want, k.sql), cs)
 			}
 		}
+		setOps(cs.Col+"/two-columns", lq, rq)
 		s.MustExec("DROP TABLE " + p)
 	}
 	s.MustExec("DROP TABLE " + t)
@@ -866,12 +1000,179 @@ func pairsText(ps [][]x.Val) string {
 	return strings.Join(parts, " ")
 }
 
+// ---------- wide decimals and negative zero (values the int64-mantissa cases cannot express) ----------
+
+type bigCase struct {
+	Kind string   `json:"kind"` // "big"
+	Col  string   `json:"col"`  // dec40 (DECIMAL(40,0)) | negzero (DECIMAL(10,2))
+	X    []string `json:"x"`    // inserted literals
+	Lits []string `json:"lits"` // IN-list literals
+}
+
+var big40Pool = []string{"0", "5", "1000000000000000000000000000000000000", "2000000000000000000000000000000000000",
+	"99999999999999999999999999999999999", "100000000000000000000000000000000000", "-1000000000000000000000000000000000000", "7"}
+var negzeroPool = []string{"-0.004", "0.00", "0", "1.00", "-0.001", "0.004", "-1.00", "-0.005"}
+
+func genBig(r *lib.RNG) bigCase {
+	c := bigCase{Kind: "big", Col: lib.Pick(r, []string{"dec40", "negzero"})}
+	pool, lits := big40Pool, big40Pool
+	if c.Col == "negzero" {
+		pool, lits = negzeroPool, []string{"0", "1", "5", "-1", "0.00"}
+	}
+	for i, n := 0, r.Range(2, 5); i < n; i++ {
+		c.X = append(c.X, lib.Pick(r, pool))
+	}
+	for i, n := 0, r.Range(1, 3); i < n; i++ {
+		c.Lits = append(c.Lits, lib.Pick(r, lits))
+	}
+	return c
+}
+
+// stored value of a literal in a DECIMAL(p, scale) column: rounded half up on the magnitude, as an integer mantissa
+func storedMant(lit string, scale int) *big.Int {
+	rat, ok := new(big.Rat).SetString(lit)
+	if !ok {
+		panic("bad literal " + lit)
+	}
+	rat.Mul(rat, new(big.Rat).SetInt(new(big.Int).Exp(big.NewInt(10), big.NewInt(int64(scale)), nil)))
+	neg := rat.Sign() < 0
+	rat.Abs(rat)
+	rat.Add(rat, big.NewRat(1, 2))
+	m := new(big.Int).Quo(rat.Num(), rat.Denom())
+	if neg {
+		m.Neg(m)
+	}
+	return m
+}
+
+func runBig(c *lib.Ctx, v *engEnv, cs bigCase) {
+	v.n++
+	t := fmt.Sprintf("tb%d", v.n)
+	s := v.s
+	scale, def := 0, "DECIMAL(40,0)"
+	if cs.Col == "negzero" {
+		scale, def = 2, "DECIMAL(10,2)"
+	}
+	s.MustExec("CREATE TABLE " + t + " (id INT PRIMARY KEY, x " + def + ")")
+	defer s.MustExec("DROP TABLE " + t)
+	var xm []*big.Int
+	negZero, beyond := false, false
+	lim := new(big.Int).Exp(big.NewInt(10), big.NewInt(35), nil)
+	for i, l := range cs.X {
+		s.MustExec(fmt.Sprintf("INSERT INTO %s VALUES (%d, %s)", t, i, l))
+		m := storedMant(l, scale)
+		xm = append(xm, m)
+		if m.Sign() == 0 && strings.HasPrefix(l, "-") {
+			negZero = true
+		}
+		if new(big.Int).Abs(m).Cmp(lim) >= 0 {
+			beyond = true
+		}
+	}
+	var lm []*big.Int // literal values scaled by 10^scale
+	for _, l := range cs.Lits {
+		r, _ := new(big.Rat).SetString(l)
+		r.Mul(r, new(big.Rat).SetInt(new(big.Int).Exp(big.NewInt(10), big.NewInt(int64(scale)), nil)))
+		if !r.IsInt() {
+			panic("literal finer than the column scale")
+		}
+		m := new(big.Int).Set(r.Num())
+		lm = append(lm, m)
+		if new(big.Int).Abs(m).Cmp(lim) >= 0 && cs.Col == "dec40" {
+			beyond = true
+		}
+	}
+	c.Count("big:col=" + cs.Col)
+	nClasses, nJoin, nIn := 0, 0, 0
+	for i, a := range xm {
+		first := true
+		for j, b := range xm {
+			if a.Cmp(b) == 0 {
+				nJoin++
+				if j < i {
+					first = false
+				}
+			}
+		}
+		if first {
+			nClasses++
+		}
+		for _, l := range lm {
+			if a.Cmp(l) == 0 {
+				nIn++
+				break
+			}
+		}
+	}
+	kind := "same-representation"
+	switch {
+	case negZero:
+		kind = "negative-zero"
+	case beyond:
+		kind = "decimal-beyond-1e35"
+	}
+	iq := "SELECT COUNT(*) FROM " + t + " WHERE x IN (" + strings.Join(cs.Lits, ", ") + ")"
+	jq := "SELECT /*+ HASH_JOIN(a,b) */ COUNT(*) FROM " + t + " a JOIN " + t + " b ON a.x = b.x"
+	bigHv := func(m *big.Int) string { return "(HDec (" + m.String() + ")%Z 0)" }
+	for _, k := range []struct {
+		op, sql string
+		want    int
+	}{
+		{"group-by-column", "SELECT COUNT(*) FROM (SELECT x FROM " + t + " GROUP BY x) q", nClasses},
+		{"distinct-column", "SELECT COUNT(*) FROM (SELECT DISTINCT x FROM " + t + ") q", nClasses},
+		{"count-distinct-column", "SELECT COUNT(DISTINCT x) FROM " + t, nClasses},
+		{"in-list", iq, nIn},
+		{"hash-join-hinted", jq, nJoin},
+	} {
+		got, err := count1(s.Query(k.sql))
+		if err != nil {
+			c.Count("big:error:" + k.op)
+			continue
+		}
+		var id int
+		switch {
+		case cs.Col == "dec40" && k.op == "in-list":
+			// HashInTuple under InternalDecimalType: HashOfSimple converts to DECIMAL(65,30), whose bound is 10^35
+			xs := make([]string, len(xm))
+			for i, m := range xm {
+				xs[i] = bigHv(m)
+			}
+			ls := make([]string, len(lm))
+			for i, m := range lm {
+				if m.IsInt64() {
+					ls[i] = "(HInt " + lib.CoqZ(m.Int64()) + ")"
+				} else {
+					ls[i] = bigHv(m)
+				}
+			}
+			id = c.Case("(InCase false (TDec 30) "+lib.CoqList(xs)+" "+lib.CoqList(ls)+" "+fmt.Sprint(got)+")", cs, fmt.Sprintf("bigin|%v|%v", cs.X, cs.Lits))
+		case cs.Col == "dec40" && k.op == "hash-join-hinted":
+			xs := make([]string, len(xm))
+			for i, m := range xm {
+				xs[i] = bigHv(m)
+			}
+			id = c.Case("(JoinCase false (TDec 0) "+lib.CoqList(xs)+" "+lib.CoqList(xs)+" "+fmt.Sprint(got)+")", cs, "")
+		default:
+			id = c.CaseNoModel(cs, "")
+		}
+		c.PredChecked()
+		if got != k.want {
+			c.PredFail(id, k.op+"/mismatch/"+kind,
+				fmt.Sprintf("%s over x %s = %v, IN list %v: engine count %d, number by '=' %d; query: %s", k.op, def, cs.X, cs.Lits, got, k.want, k.sql), cs)
+		}
+	}
+}
+
 // ---------- corpus ----------
 
 func corpus() (ps []pairCase, es []engCase) {
 	d := x.Dec
 	ps = []pairCase{
-		{Kind: "pair", Coll: "bin", Schema: []bool{false}, R1: []x.Val{d(100, 2)}, R2: []x.Val{d(10000, 4)}, Simple: true},
+		{Kind: "pair", Coll: "bin", Schema: []bool{false}, R1: []x.Val{d(100, 2)}, R2: []x.Val{d(10000, 4)}, Simple: true, TScale: 30},
+		{Kind: "pair", Coll: "bin", Schema: []bool{false}, R1: []x.Val{d(125, 2)}, R2: []x.Val{d(13, 1)}, Simple: true, TScale: 1},
+		{Kind: "pair", Coll: "bin", Schema: []bool{false}, R1: []x.Val{d(-4, 3)}, R2: []x.Val{d(0, 2)}, Simple: true, TScale: 2},
+		{Kind: "pair", Coll: "bin", Schema: []bool{false}, R1: []x.Val{x.Int(100)}, R2: []x.Val{d(10000, 2)}, Simple: true, TScale: 30},
+		{Kind: "pair", Coll: "bin", Schema: []bool{false}, R1: []x.Val{d(0, 2)}, R2: []x.Val{x.Int(0)}, Simple: true, TScale: 2},
 		{Kind: "pair", Coll: "ai_ci", Schema: []bool{true}, R1: []x.Val{x.Str("a")}, R2: []x.Val{x.Str("A")}, Simple: true},
 		{Kind: "pair", Coll: "ai_ci", Schema: []bool{false}, R1: []x.Val{x.Str("a")}, R2: []x.Val{x.Str("A")}},
 		{Kind: "pair", Coll: "bin", Schema: []bool{false, false}, R1: []x.Val{x.Str("a\x00"), x.Str("b")}, R2: []x.Val{x.Str("a"), x.Str("\x00b")}},
@@ -899,7 +1200,7 @@ func corpus() (ps []pairCase, es []engCase) {
 
 func main() {
 	lib.Main("C07", func(c *lib.Ctx) {
-		c.Header = "From Coq Require Import List NArith ZArith.\nImport ListNotations.\nFrom GMS Require Import Phys.C07HashKey Corr.C07.\nOpen Scope N_scope."
+		c.Header = "From Coq Require Import List NArith ZArith.\nImport ListNotations.\nFrom GMS Require Import Phys.C07HashKey Phys.C07Ops Corr.C07.\nOpen Scope N_scope."
 		c.CaseType = "C07.case"
 		c.MismatchFn = "C07.mismatches"
 		c.SetRule("(a) pairs of rows (1-3 values: integers of several Go widths incl. int64 extremes, decimals of scales 0/1/2/4 incl. equal numbers at " +
@@ -918,6 +1219,10 @@ func main() {
 				var cs pairCase
 				lib.LoadReplay(c.ReplayFile, &cs)
 				runPair(c, lib.NewRNG(1), cs)
+			} else if k.Kind == "big" {
+				var cs bigCase
+				lib.LoadReplay(c.ReplayFile, &cs)
+				runBig(c, v, cs)
 			} else {
 				var cs engCase
 				lib.LoadReplay(c.ReplayFile, &cs)
@@ -932,11 +1237,21 @@ func main() {
 		for _, cs := range es {
 			runEng(c, v, cs)
 		}
+		for _, cs := range []bigCase{
+			{Kind: "big", Col: "dec40", X: []string{"1000000000000000000000000000000000000", "0", "2000000000000000000000000000000000000"}, Lits: []string{"0", "5"}},
+			{Kind: "big", Col: "dec40", X: []string{"99999999999999999999999999999999999", "7", "5"}, Lits: []string{"5", "99999999999999999999999999999999999"}},
+			{Kind: "big", Col: "negzero", X: []string{"-0.004", "0.00", "0"}, Lits: []string{"0", "5"}},
+			{Kind: "big", Col: "negzero", X: []string{"1.00", "-1.00", "0.004"}, Lits: []string{"1", "0"}},
+		} {
+			runBig(c, v, cs)
+		}
 		// c.N counts generated inputs: pairs are cheap (one Coq case each), an engine case yields ~12 checks
 		for i := 0; i < c.N; i++ {
 			r := c.R.Fork()
 			if i%10 == 0 {
 				runEng(c, v, genEng(r))
+			} else if i%50 == 7 {
+				runBig(c, v, genBig(r))
 			} else {
 				runPair(c, r, genPair(r))
 			}
